@@ -55,7 +55,7 @@ def valid_paths(la, lb):
 
 def doalign_instances(tier, ob, prefix):
     out = []
-    tup = [(1, 1, 2, 3, 0), (2, 1, 3, 2, 0), (1, 2, 2, 3, 1), (2, 2, 3, 2, 0)] if tier == "quick" else \
+    tup = [(1, 1, 2, 3, 1), (2, 1, 3, 2, 1)] if tier == "quick" else \
           [(ga, gb, la, lb, last) for ga in (1, 2) for gb in (1, 2) for la in (1, 2, 3) for lb in (1, 2, 3) for last in (0, 1) if (ga == 1 or la >= 2) and (gb == 1 or lb >= 2)]
     for ga, gb, la, lb, last in tup:
       # problem size the DP is handed (do_align swaps so that the first operand is the shorter one / the profile)
@@ -67,7 +67,7 @@ def doalign_instances(tier, ob, prefix):
           pla, plb = (la, lb) if la < lb else (lb, la)
       paths = valid_paths(pla, plb)
       if tier == "quick":
-          paths = paths[::max(1, len(paths) // 2)][:2]
+          paths = paths[:1]   # quick: one path per size tuple, last-task variant (no update_n): the 900 s budget of the quick tier
       for pi, path in enumerate(paths):
         d = {"VK_GA": ga, "VK_GB": gb, "VK_LENA": la, "VK_LENB": lb, "NOHAVE_AVX2": None, "VK_PLA": pla, "VK_PLB": plb,
              "VK_PATH_INIT": "{0," + ",".join(map(str, path)) + "}"}
